@@ -12,7 +12,7 @@ CHECKS = {
 	'C01': {
 		'category': 'translation_validation',
 		'engine': 'tv',
-		'technique': 'translation validation: CPython ast and the emitted C++ text are both encoded as z3 bit-vector terms and compared for all inputs inside the agreement premises; sat models are replayed through g++ and CPython',
+		'technique': 'translation validation: CPython ast and the emitted C++ text are both encoded as z3 bit-vector terms and compared for all inputs inside the agreement premises; sat models are replayed through g++ and CPython; one closed multi-module run obligation',
 		'text': 'For each of several thousand generated scalar functions (all operator pairs and triples, unary / boolean / ternary / parenthesised / nested shapes, if-elif-else, while, for-range, break/continue, augmented assignment, '
 			'declarations with inferred types, shadowing-prone reassignments, calls with default arguments, guarded raise) and of 30 list[int] templates (for-in, enumerate, indexing incl. negative and symbolic indices, len arithmetic, membership, local literals with append / item assignment, comprehensions; lists modelled as a length term plus 4 element terms, parameter length <= 3) and of 11 class templates (constructors with member initialiser lists, methods, field stores, single inheritance; objects modelled as field maps, C++ initialisation order and static dispatch) the real transpiler runs and z3 decides whether any inputs (three ints in [-2^15, 2^15), one bool) exist on which '
 			'Python and the emitted C++ return different values or differ in raising. unsat = equal for all such inputs; sat is reported only if the compiled C++ really differs from CPython.',
@@ -52,14 +52,14 @@ CHECKS = {
 	},
 	'C08': {
 		'category': 'model_checking',
-		'technique': 'bounded symbolic execution (CrossHair + z3) of the delimiter-joined name arithmetic with symbolic identifiers free to be prefixes / suffixes / copies of each other',
+		'technique': 'bounded symbolic execution (CrossHair + z3) of the delimiter-joined name arithmetic with symbolic identifiers free to be prefixes / suffixes / copies of each other; finite case analysis of adversarial renamings of four template programs through the real pipeline',
 		'text': 'Name-handling kernels only: DSN, ModuleDSN and EntryPath operations agree with the list-of-elements reference for every triple of identifiers up to the stated length over [a b _ 1]; relativefy for element-aligned prefixes whose text does not recur.',
 		'design_ref': 'DESIGN.md section 2, C08',
 		'note': 'The metamorphic relation over whole programs needs the pipeline and is outside; the regex helpers of py2cpp / cpp_view_helper did not close within budget and are outside. ' + NOTE_COMMON,
 	},
 	'C09': {
 		'category': 'model_checking',
-		'technique': 'bounded symbolic case analysis (CrossHair + z3) over program templates, the node kind returning None and the position of nested / failing nested runs; real Procedure, Nodes and node classes on trees built by the shipped grammar',
+		'technique': 'bounded symbolic case analysis (CrossHair + z3) over program templates, the node kind returning None and the position of nested / failing nested runs; real Procedure, Nodes and node classes on trees built by the shipped grammar; one closed obligation over loaded modules with type-resolving handlers',
 		'text': 'For 14 program templates x expression fillings x 9 choices of a node kind whose handler returns None x 4 positions of a nested exec (repeated failing and caught), a recording handler verifies for every visited node that each expandable property receives exactly '
 			'the results of the nodes it yields (single vs list, order), that one result remains, and that a second run starts clean. prop_keys() of every node class equals the definition order read from the class bodies.',
 		'design_ref': 'DESIGN.md section 2, C09',
@@ -101,7 +101,7 @@ CHECKS = {
 	},
 	'C14': {
 		'category': 'model_checking',
-		'technique': 'bounded symbolic case analysis (CrossHair + z3) over attribute-tree shapes and module declaration orders; real expand/_deserialize_attrs/SymbolDB code on stub reflections',
+		'technique': 'bounded symbolic case analysis (CrossHair + z3) over attribute-tree shapes and module declaration orders; real expand/_deserialize_attrs/SymbolDB code on stub reflections; one closed export / import obligation over three multi-module programs through the real pipeline',
 		'text': 'Attribute-path and ordering kernels: for every attribute tree of the family (fan-out up to 12, depth 3) flattening and _deserialize_attrs rebuild an isomorphic tree, twice, without growing the table; for every declaration order and reference assignment of a 5-row module '
 			'the export order never refers forward, import into a table holding only the other module restores every row, marks the module completed, and a second import changes nothing.',
 		'design_ref': 'DESIGN.md section 2, C14',
@@ -117,7 +117,7 @@ CHECKS = {
 	},
 	'C16': {
 		'category': 'model_checking',
-		'technique': 'bounded symbolic execution (CrossHair + z3) of the span arithmetic: SourceMap.make vs a reference, span views, the error quotation on symbolic columns, rendering through a real node',
+		'technique': 'bounded symbolic execution (CrossHair + z3) of the span arithmetic: SourceMap.make vs a reference, span views, the error quotation on symbolic columns, rendering through a real node; one closed span-nesting obligation over loaded modules',
 		'text': 'Span arithmetic kernels: SourceMap.make equals the line/column reference for every buffer and offset pair in the bound; EntryOfLark.source_map returns the recorded span or the documented default, also through the cache round trip; '
 			'the quotation marks exactly columns [begin, end) of the reported line (multi-line nodes to the end of the line, tabs one-for-one), also through ErrorRender on a real node.',
 		'design_ref': 'DESIGN.md section 2, C16',
@@ -125,7 +125,7 @@ CHECKS = {
 	},
 	'C17': {
 		'category': 'model_checking',
-		'technique': 'bounded symbolic execution (CrossHair + z3) of the evaluator kernels on unbounded symbolic ints / symbolic literal text, plus direct QF_BVFP queries (cvc5 + z3) generated from the AST of the current evaluator source',
+		'technique': 'bounded symbolic execution (CrossHair + z3) of the evaluator kernels on unbounded symbolic ints / symbolic literal text, plus direct QF_BVFP queries (cvc5 + z3) generated from the AST of the current evaluator source; closed enum / cast obligations through the real pipeline',
 		'text': 'z3 closes every path of _op_bin_each/_calc/_bitwise for int operands (+ - * % shifts unbounded; | ^ & small range), 3-operand left folds, unary sign, DEC/HEX literal decoding, string concatenation over all quote-kind pairs and the scalar casts against CPython semantics '
 			'(equal value and type, or refusal). K2 specialises the current source per operand-type triple and asks cvc5/z3 whether any signed 64-bit / binary64 operands give a value different from CPython\'s (int/int true division through a binary128 oracle). '
 			'Counterexamples are replayed on the real evaluator.',
@@ -134,7 +134,7 @@ CHECKS = {
 	},
 	'C18': {
 		'category': 'model_checking',
-		'technique': 'bounded symbolic execution (CrossHair + z3) of the real helpers against an independent reference splitter; counterexamples replayed concretely',
+		'technique': 'bounded symbolic execution (CrossHair + z3) of the real helpers against an independent reference splitter; counterexamples replayed concretely; one closed dict-comprehension obligation through the real pipeline',
 		'text': 'For every well-formed fragment up to the stated length over per-case alphabets (brackets of two kinds, quotes, delimiters, blanks), z3 closes every path of '
 			'BlockParser.break_separator / break_last_block / parse_bracket / parse_pair, DecoratorHelper and CppViewHelper.Param.parse against the laws of the property '
 			'(cuts exactly at top-level delimiters, pieces balanced, rejoin, last group = (prefix, inside), decorator/parameter reassembly). Bounded: nothing is claimed beyond the lengths in the evidence.',
